@@ -34,7 +34,7 @@ inductive Native
 
 /-- `Value`: tag and payload consistent by construction. -/
 inductive Val
-  | str (s : Bytes)
+  | str (s : Bytes) (spec : Option SpecRef)           -- `spec`: set on a character read from a string by index
   | bool (b : Bool)
   | num (x : F64)
   | arr (a : ArrId)
@@ -48,7 +48,7 @@ inductive Val
 
 /-- `ValueTag.String()` (valuetag_string.go) -/
 def Val.tagName : Val → String
-  | .str _ => "string" | .bool _ => "bool" | .num _ => "number" | .arr _ => "array"
+  | .str .. => "string" | .bool _ => "bool" | .num _ => "number" | .arr _ => "array"
   | .obj _ => "object" | .nil _ => "nil" | .native .. => "nativefunction" | .fn _ => "function"
   | .regex _ => "regex" | .unknown => "unknown"
 
@@ -57,12 +57,12 @@ inductive Kind | str | bool | num | arr | obj | nil | native | fn | regex | unkn
   deriving DecidableEq, Repr
 
 def Val.kind : Val → Kind
-  | .str _ => .str | .bool _ => .bool | .num _ => .num | .arr _ => .arr | .obj _ => .obj
+  | .str .. => .str | .bool _ => .bool | .num _ => .num | .arr _ => .arr | .obj _ => .obj
   | .nil _ => .nil | .native .. => .native | .fn _ => .fn | .regex _ => .regex | .unknown => .unknown
 
 /-- `Value.String()`: string form used for concatenation and object keys -/
 def Val.str! : Val → Bytes
-  | .str s => s
+  | .str s _ => s
   | .num x => x.format
   | _ => []
 
@@ -70,7 +70,7 @@ def Val.str! : Val → Bytes
 def Val.truthy : Val → Bool
   | .bool b => b
   | .num x => !x.isZero
-  | .str s => !s.isEmpty
+  | .str s _ => !s.isEmpty
   | .arr _ | .obj _ | .fn _ | .native .. => true
   | _ => false
 
@@ -78,7 +78,7 @@ def Val.truthy : Val → Bool
 def Val.asNum : Val → F64
   | .num x => x
   | .bool b => if b then F64.one else F64.zero
-  | .str s => match F64.parse s with | some x => x | none => F64.zero
+  | .str s _ => match F64.parse s with | some x => x | none => F64.zero
   | _ => F64.zero
 
 /-- `Value.Compare`: -1/0/1, or the error "cannot compare" -/
@@ -92,7 +92,7 @@ def Val.compare (a b : Val) : Except String Int :=
       .error "cannot compare"
     else
       match a, b with
-      | .str x, .str y =>
+      | .str x _, .str y _ =>
         .ok (match Bytes.cmp x y with | .lt => -1 | .eq => 0 | .gt => 1)
       | _, _ =>
         let x := a.asNum
@@ -164,7 +164,7 @@ def copyVal : Val → Except String Val
   | .num x => .ok (.num x)
   | .bool b => .ok (.bool b)
   | .nil _ => .ok (.nil none)
-  | .str s => .ok (.str s)
+  | .str s _ => .ok (.str s none)
   | .regex s => .ok (.regex s)
   | .arr a => .ok (.arr a)
   | .obj o => .ok (.obj o)
@@ -204,7 +204,7 @@ def numProto (key : Bytes) : Option Native :=
 /-- what `GetMember` found -/
 inductive Member
   | cell (c : CellId)          -- a live cell of the container
-  | fresh (v : Val)            -- a value for a brand-new cell (string indexing)
+  | char (c : Option Bytes) (index : F64)  -- string indexing: a fresh cell holding the character (or null), remembering parent and index
   | method (f : Native)        -- a prototype method
   | missing                    -- `nil, nil`
   deriving Repr, DecidableEq
@@ -212,7 +212,7 @@ inductive Member
 /-- lookup in a prototype object: `proto.GetMember(member)` -/
 def protoGet (tbl : Bytes → Option Native) (member : Val) : Except String Member :=
   match member with
-  | .num _ | .str _ =>
+  | .num _ | .str .. =>
     match tbl member.str! with
     | some f => .ok (.method f)
     | none => .ok .missing
@@ -238,17 +238,17 @@ def getMember (h : Heap) (v : Val) (member : Val) : Except String Member :=
     | _ => protoGet arrayProto member
   | .obj o =>
     match member with
-    | .num _ | .str _ =>
+    | .num _ | .str .. =>
       match objLookup (h.obj o) member.str! with
       | some c => .ok (.cell c)
       | none => protoGet objProto member
     | _ => .error "objects can only be indexed with numbers or strings"
-  | .str s =>
+  | .str s _ =>
     match member with
     | .num x =>
       let i := x.toGoInt
-      if i < 0 || i ≥ s.length then .ok (.fresh (.nil none))
-      else .ok (.fresh (.str (utf8Encode (s.getD i.toNat 0).toNat)))
+      if i < 0 || i ≥ s.length then .ok (.char none x)
+      else .ok (.char (some (utf8Encode (s.getD i.toNat 0).toNat)) x)
     | _ => protoGet strProto member
   | .num _ => protoGet numProto member
   | _ => .ok .missing
